@@ -70,11 +70,20 @@ Definition dec_input (x : sx) : option rinput :=
   | _ => None
   end.
 
+(* Component: what the property fixes is the ORDER of the handler calls (arrival order),
+   not how they interleave with the loop's other actions (a component may hand its packets
+   to a dispatching goroutine): handler calls first, in order, then the other actions, in order. *)
+Definition is_route_sx (x : sx) : bool :=
+  match x with SL (SZ 0 :: _) => true | _ => false end.
+Definition partition_routes (l : list sx) : list sx :=
+  filter is_route_sx l ++ filter (fun x => negb (is_route_sx x)) l.
+
 Definition run_typed (i : rinput) : sx :=
   let tr := if r_component i then precv (r_items i)
             else crecv (r_inb i) 0 (r_wfail i) (r_items i) in
   (* third component: goroutines of the library left after the loop ended; the model's
      threads all terminate (crecv/precv are structurally recursive), so 0 *)
-  SL [SL (sync_list false tr); SL (flat_map async_sx tr); SZ 0].
+  SL [SL (if r_component i then partition_routes (sync_list false tr) else sync_list false tr);
+      SL (flat_map async_sx tr); SZ 0].
 
 Definition run_recv : sx -> sx := with_input dec_input run_typed.
